@@ -191,10 +191,37 @@ def mstr_cases(r: random.Random, n: int) -> list[tuple[str, int, str, str]]:
     return out
 
 
+def mlex_impl(q: str, text: str, s: str) -> dict:
+    """the real lexer on a text that starts with a triple quote: the first token if it is a multi-line literal"""
+    from antlr4 import InputStream, Token
+    from explorerscript.antlr.ExplorerScriptLexer import ExplorerScriptLexer
+    from explorerscript.ssb_converting.ssb_data_types import _multiline_literal_is_exact
+
+    lx = ExplorerScriptLexer(InputStream(text))
+    lx.removeErrorListeners()
+    t = lx.nextToken()
+    tok = t.text if t.type == ExplorerScriptLexer.MULTILINE_STRING_LITERAL else None
+    return {"ok": True, "token": tok, "exact": _multiline_literal_is_exact(s, 0, q * 3)}
+
+
+def mlex_cases(r: random.Random, n: int) -> list[tuple[str, str, str]]:
+    out = []
+    for _ in range(n):
+        q = r.choice("'\"")
+        o = "'" if q == '"' else '"'
+        alpha = [q, q, q, o, "a", " ", "\n", "\\", "b"]
+        body = "".join(r.choice(alpha) for _ in range(r.randint(0, 12)))
+        tail = r.choice(["", "", q * 3, " x", q, q * 2, q * 4, ";\n" + q * 3 + "z" + q * 3])
+        text = q * 3 + body + r.choice([q * 3, q * 3, q * 3, "", q * 2]) + tail
+        s = "".join(r.choice(alpha) for _ in range(r.randint(0, 9)))
+        out.append((q, text, s))
+    return out
+
+
 def main() -> None:
     run = Run("C04", "proof")
     run.forbid()
-    run.require_vo(["Text/Dec.v", "Text/Str.v", "Text/StrProofs.v", "Text/MStr.v", "Text/MStrProofs.v", "Text/Num.v", "Text/NumProofs.v"])
+    run.require_vo(["Text/Dec.v", "Text/Str.v", "Text/StrProofs.v", "Text/MStr.v", "Text/MStrProofs.v", "Text/MLex.v", "Text/MLexProofs.v", "Text/Num.v", "Text/NumProofs.v"])
     run.props("Props/C04.v")
     q = run.tier == "quick"
     r = random.Random(f"C04-{run.seed}")
@@ -246,6 +273,30 @@ def main() -> None:
             mfirst = (diff, {"quote": qq, "indent": ind, "string": s, "literal": lit, "impl": im, "model": mo})
     if mfirst is not None:
         run.correspondence_broken("K-mstr (Text/MStr.v)", mfirst[0], mfirst[1])
+    # ... and of the lexer rule for multi-line literals (Text/MLex.v): the first token of texts that start with a triple quote
+    lc = mlex_cases(r, 800 if q else 10000)
+    limpl = run_impl([("checks.c04:mlex_impl", *c) for c in lc])
+    lmod = run_driver([[A("mlex"), ord(c[0]), [ord(x) for x in c[1]], [ord(x) for x in c[2]]] for c in lc])
+    lms = run_driver([[A("mstr"), ord(c[0]), 0, [ord(x) for x in c[2]], [ord(x) for x in c[0] * 6]] for c in lc])
+    lfirst = None
+    for c, im, mo, ms in zip(lc, limpl, lmod, lms):
+        run.case(["mlex", *c], nontrivial=len(c[1]) > 6)
+        diff = None
+        tk = None if mo.get("token") is None else "".join(chr(x) for x in mo["token"])
+        if not im.get("ok") or mo.get("r") != "ok" or ms.get("r") != "ok":
+            diff = "failed"
+        elif im["token"] != tk:
+            diff = "lex_multi vs the MULTILINE_STRING_LITERAL rule of the real lexer"
+        elif mo["occurs"] != (c[0] * 3 in c[2]):
+            diff = "occurs3"
+        elif im["exact"] != (ms["exact"] and not mo["occurs"]):
+            diff = "multi_exact and occurs3 vs _multiline_literal_is_exact"
+        run.count("K-mlex:" + ("ok" if diff is None else "DIFF"))
+        run.count("K-mlex token:" + ("none" if tk is None else "literal"))
+        if diff and lfirst is None:
+            lfirst = (diff, {"quote": c[0], "text": c[1], "string": c[2], "impl": im, "model": mo})
+    if lfirst is not None:
+        run.correspondence_broken("K-mlex (Text/MLex.v)", lfirst[0], lfirst[1])
     # ... and of the number literals (Text/Num.v)
     from knum import check_knum
     check_knum(run, r, 1500 if q else 20000)
